@@ -563,6 +563,7 @@ l3_harness! {
 /// handed to the global queue intact first (one push_bag) and a collection is scheduled; nothing runs.
 #[kani::stub(Global::push_bag, k_push_bag)]
 #[kani::stub(Global::try_advance, k_try_advance)]
+#[kani::stub(Global::collect, k_collect)]
 #[kani::unwind(6)]
 fn c15_defer() {
     let c: &'static Collector = leak(Collector::new());
@@ -582,6 +583,7 @@ fn c15_defer() {
         assert!(l.must_collect.get(), "C15.defer.full_bag_schedules_collection");
     }
     assert!(EXEC_N == 0, "C13.defer.runs_nothing");
+    assert!(COLLECTS == 0, "C07.defer.never_collects_reentrantly");   // deferred functions never run on top of the deferring frame
     assert!(l.advance_count.get() == ac.wrapping_add(1) && ADVANCES == (ac.wrapping_add(1) % 64 == 0) as u32, "C15.defer.periodic_advance_attempt");
     // conservation: run what is in the local bag now: the new function is the last one
     let k = bag.0.len();
@@ -594,6 +596,7 @@ fn c15_defer() {
 l3_harness! {
 /// flush / push_to_global / schedule_collection / incr_manual_collection.
 #[kani::stub(Global::push_bag, k_push_bag)]
+#[kani::stub(Global::collect, k_collect)]
 #[kani::unwind(6)]
 fn c15_flush() {
     let c: &'static Collector = leak(Collector::new());
@@ -620,6 +623,7 @@ fn c15_flush() {
     }
     if via == 2 { assert!(l.manual_count.get() == mc.wrapping_add(1), "C15.manual_collection.counter"); }
     assert!(EXEC_N == 0, "C13.flush.runs_nothing");
+    assert!(COLLECTS == 0, "C07.flush.never_collects_reentrantly");
     kani::cover!(flushed && n == 2 && collecting, "cover.flush.during_collection");
     kani::cover!(via == 2 && flushed, "cover.flush.by_manual_counter");
 }}
@@ -696,4 +700,48 @@ fn c16_guard_drop() {
     let g = if real { Guard { local: l } } else { unprotected() };
     drop(g);
     assert!(UNPINS == real as u32 && (!real || UNPIN_WHO == l as *const Local as usize), "C16.guard_drop.unpins_its_participant_exactly_once");
+}}
+
+// ================================================================================================
+// C18 — a stalled traversal must not advance the clock (one environment step inside the scan)
+// ================================================================================================
+static mut STALL_SLOT: usize = 0;     // address of the predecessor's `next` word
+static mut STALL_ARMED: bool = false;
+/// atomic::Atomic<T>::compare_exchange with ONE environment step: right before my unlink CAS on the
+/// predecessor's `next`, another thread logically deletes the predecessor (sets its mark bit).
+fn cas_with_predecessor_deleted<T: Copy>(a: &atomic::Atomic<T>, cur: T, new: T, _s: Ordering, _f: Ordering) -> Result<T, T> {
+    unsafe {
+        let slot = a as *const atomic::Atomic<T> as *mut usize;
+        if STALL_ARMED && slot as usize == STALL_SLOT { STALL_ARMED = false; *slot |= 1; }
+        let old = *slot;
+        let curw: usize = core::mem::transmute_copy(&cur);
+        if old == curw { *slot = core::mem::transmute_copy(&new); Ok(core::mem::transmute_copy(&old)) } else { Err(core::mem::transmute_copy(&old)) }
+    }
+}
+
+l3_harness! {
+/// registry head -> a -> b(removed) -> c ; while the scan unlinks b, a is removed concurrently
+/// (Stalled).  c is pinned in an older epoch and was not reached: the clock must stay.
+#[kani::stub(atomic::Atomic::compare_exchange, cas_with_predecessor_deleted)]
+#[kani::unwind(5)]
+fn c18_try_advance_stalled() {
+    let c: &'static Collector = leak(Collector::new());
+    let a_store = ManuallyDrop::new(mk_local(c, 2));
+    let b_store = ManuallyDrop::new(mk_local(c, 2));
+    let c_store = ManuallyDrop::new(mk_local(c, 2));
+    let (a, b, cc): (&Local, &Local, &Local) = (&a_store, &b_store, &c_store);
+    kani::assume((&a.entry as *const Entry as usize) & 7 == 0 && (&b.entry as *const Entry as usize) & 7 == 0 && (&cc.entry as *const Entry as usize) & 7 == 0);
+    crate::ebr_impl::sync::list::verif_list::link_raw(&c.global.locals, &[&a.entry, &b.entry, &cc.entry], &[false, true, false]);
+    let g: usize = kani::any(); kani::assume(g & 1 == 0 && g >= 2);
+    set_raw_epoch(&c.global.epoch, g);
+    set_raw_epoch(&a.epoch, 0);                               // a: not pinned
+    set_raw_epoch(&cc.epoch, g.wrapping_sub(2) | 1);          // c: pinned one epoch behind - it blocks the advance
+    GWORD = epoch_word(&c.global.epoch);
+    STALL_SLOT = &a.entry as *const Entry as usize;           // Entry is one word: its `next`
+    STALL_ARMED = true;
+    let guard = ManuallyDrop::new(unprotected());
+    let r = c.global.try_advance(&guard);
+    assert!(!STALL_ARMED, "C18.stall.environment_step_happened");
+    assert!(G_STORES == 0 && raw_epoch(&c.global.epoch) == g, "C18.advance.stalled_traversal_does_not_advance");
+    assert!(crate::ebr_impl::epoch::verif_epoch::data_of(r) == g, "C18.advance.stalled_traversal_reports_unchanged_epoch");
 }}
